@@ -78,7 +78,7 @@ Definition check (c : c17case) : bool :=
           let ss := [{| sstart := 0; sjit := 0; scancel := false; sdata := repeat x00 (Z.to_nat avail) |}] in
           let ops := map (fun le => {| oc := 0; olen := fst le; odelay := 0; oj2 := 0; oj3 := 0; oavail := chunk; oerr := snd le |}) (combine lens errs) in
           let '(w, tr) := run h ss ops in
-          zz_eqb (pulls_of tr) obs && (length lens =? length errs)%nat
+          zz_eqb (pulls_of tr) obs && (List.length lens =? List.length errs)%nat
           && zz_eqb (rets_of tr) ret
           && ((consT =? -1) || (match htotal h with Some L => consumed L (wtotal w) | None => 0 end =? consT))
           && ((consL =? -1) || (match hlocal h with Some L => consumed L (wlocal w 0%nat) | None => 0 end =? consL))
